@@ -135,6 +135,7 @@ type FuncSpec struct {
 	Loops    map[int]*LoopSpec
 	Assumes  []Clause // counted
 	Trusted  bool     // contract is assumed, body not verified (stdlib / external)
+	BodySpec bool     // verified against the body, never used at call sites
 	Uses     []string // axioms/lemmas to include
 	Pos      string
 	Bound    bool // set when matched to an SSA function
@@ -761,6 +762,11 @@ func (p *sparser) parseClauses(fs *FuncSpec) {
 		case "trusted":
 			p.next()
 			fs.Trusted = true
+		case "bodyspec":
+			// a second contract for the same function, used only to verify its body (call sites keep using the
+			// primary contract, e.g. a claim-free `modifies everything` summary)
+			p.next()
+			fs.BodySpec = true
 		case "purefunc":
 			p.next()
 			for {
